@@ -1024,6 +1024,23 @@ impl<'a> World<'a> {
                     self.probe_once(&cfg, "torn_write", Some((key, FileState::Garbage)));
                 }
             }
+            // an interrupted write of ANOTHER protocol: next to the completed record file lies a stray temporary file
+            // (`<name>.tmp`, `.part`, `~`, `.new`) holding a torn copy of the same content. Whatever a start-up makes of
+            // files it does not know, the completed record is served and nothing torn is.
+            for (si, suffix) in [".tmp", ".part", "~", ".new"].iter().enumerate() {
+                for cut in [len / 2, len.saturating_sub(1)] {
+                    if self.plan.probe_prefixes != u32::MAX && (si + cut) % 2 == 1 {
+                        continue; // quick tier: half of the combinations
+                    }
+                    copy_all(&self.store_dir(), &sdir);
+                    if std::fs::write(sdir.join(format!("{name}{suffix}")), &full[..cut.min(len)]).is_err() {
+                        continue;
+                    }
+                    self.rep.fault("stray_temporary_file_with_torn_content");
+                    self.probe_once(&cfg, "stray_temp_file", None);
+                    let _ = std::fs::remove_file(sdir.join(format!("{name}{suffix}")));
+                }
+            }
             // corruption of the completed file: bit flips
             let positions: Vec<usize> = if all {
                 (0..len).collect()
